@@ -21,7 +21,8 @@ PROP = "C19"
 # the message stream of engine/procx/c19child.cpp: (type, category, text)
 def stream(run):
     return [("debug", "net", "keep alpha"), ("info", "ui.main", "beta skip"), ("warning", "net", "keep gamma"),
-            ("critical", "default", "keep delta"), ("info", "net", "keep eps"), ("debug", "ui.main", "keep zeta %d" % run)]
+            ("critical", "default", "keep delta"), ("info", "net", "keep eps"), ("debug", "ui.main", "keep zeta %d" % run),
+            ("debug", "default", "keep worker"), ("warning", "net", "keep omega")]      # the last two from a second thread
 
 RULES = [None, "*.debug=false", "ui.*=false;net.warning=false;net.warning=true"]
 REGEXPS = [None, "^keep"]
@@ -68,8 +69,11 @@ def fmt(cfg, m):
     return "%s|%s|%s" % m if cfg.get("message_pattern") else None
 
 
-def ini_text(cfg):
-    lines = ["[logger]"]
+DECOY_GROUP = '[logger]\nstdout=true\nmessage_pattern="DECOY %{message}"\nplatform_std_log=false\n\n'
+
+
+def ini_text(cfg, group="logger"):
+    lines = ["[%s]" % group]
     for k, v in cfg.items():
         if k.startswith("_") or v is None:
             continue
@@ -79,7 +83,7 @@ def ini_text(cfg):
             lines.append("%s=%d" % (k, v))
         else:
             lines.append('%s="%s"' % (k, v.replace("%", "%")))
-    return "\n".join(lines) + "\n"
+    return (DECOY_GROUP if group != "logger" else "") + "\n".join(lines) + "\n"
 
 
 def run_child(argv, tty):
@@ -188,8 +192,8 @@ def one_ini(job):
         if c.get("path"):
             c["path"] = os.path.join(d, "app.log")
         ini = os.path.join(d, "cfg.ini")
-        open(ini, "w").write(ini_text(c))
-        what = "INI %s%s" % (json.dumps({k: v for k, v in cfg.items() if v is not None}, sort_keys=True), " [terminal: %s]" % use_pty if use_pty else "")
+        open(ini, "w").write(ini_text(c, "audit" if mode.startswith("inig") else "logger"))
+        what = "INI%s %s%s" % ({"inig": " in group [audit] next to a decoy group [logger]", "inig2": " in group [audit], after another Logger object was configured from the decoy group [logger]"}.get(mode, ""), json.dumps({k: v for k, v in cfg.items() if v is not None}, sort_keys=True), " [terminal: %s]" % use_pty if use_pty else "")
         viols, all_msgs, renderings = [], [], {}
         runs = 2 if c.get("path") else 1
         for run in range(runs):
@@ -313,7 +317,7 @@ def run(tier):
     root = tempfile.mkdtemp(prefix="verif-c19-", dir="/dev/shm")
     try:
         cfgs = ini_space(tier)
-        jobs = [(exe, root, c, False, "ini" if i % 2 == 0 else "settings") for i, c in enumerate(cfgs)]
+        jobs = [(exe, root, c, False, ("ini", "settings", "inig", "settings", "ini", "inig2")[i % 6]) for i, c in enumerate(cfgs)]
         # terminal variant of the colour keys (stdout / stderr are ptys)
         ptyc = [c for c in cfgs if not c.get("path") and not c.get("filter_rules") and not c.get("regexp_filter") and c.get("message_pattern")]
         if tier == "quick":
@@ -365,7 +369,7 @@ def run(tier):
         rule="(a) INI: the full product of key values {filter_rules: absent / *.debug=false / an ordered 3-rule list} x {regexp_filter: absent / ^keep} x {message_pattern: absent / %{type}|%{category}|%{message}} x "
              "{stdout, stdout_color, stderr, stderr_color: absent / true} x {platform_std_log: absent(=on) / false / true} x file variants (absent; path x max_file_size x max_file_count x rotate_on_startup x rotate_daily x "
              "compress_old_files) x {async: absent / true}; each configuration is one child process per run (two runs = a restart when a file is configured) that loads the INI through configureFromIniFile() or a QSettings "
-             "object, logs six messages (two categories + default, four types, one not matching the regexp) through Qt's macros and stops; oracle per stream: exactly the messages passing the configured filters (independent "
+             "object (or from a non-default group [audit] next to a decoy group [logger], with or without another Logger object of the process configured from the decoy group first), logs eight messages (two categories + default, four types, one not matching the regexp; the last two from a second thread) through Qt's macros and stops; oracle per stream: exactly the messages passing the configured filters (independent "
              "Python rule/regex reference), once per configured output and in order (stderr carries one copy per stderr-type output), formatted exactly when a pattern is given and otherwise carrying text + [category], no output "
              "on an unconfigured stream, no file without a path, files (rotated + gzip decoded, in date/index order) hold every line once (a line-aligned suffix under retention); terminal variants (both streams / only stdout / only stderr on a pty) check colour per key and per stream; "
              "with a file: rotated files are .gz exactly when compress_old_files is set, a restart rotates the old file exactly when rotate_on_startup is on. "
